@@ -277,6 +277,8 @@ class Session:
         self.p_quiesce = p_quiesce
         # slow_close: closing a file connection takes until the behaviour says so (at most the library's
         # 5 s disconnect timeout): an abort of a running upload then suspends the management cycle
+        self.force_settings = False
+        self.p_settings = 0.4     # share of the directory changes made by editing the settings + reloading
         self.slow_close = (rng.random() < 0.6) if slow_close is None else slow_close
         self.held = []
         # eager: the peers accept every offer at once and read to the end (uploads get COMPLETE)
@@ -578,8 +580,7 @@ class Session:
                 lookers = self.rng.sample(USERS, 2)
                 await self.look(lookers)
                 cfg['mode'][d] = str(m)
-                await api('setmode', lambda: shares.update_shared_directory(w.dir[d], share_mode=DirectoryShareMode(m)),
-                          d=d, m=str(m))
+                await api('setmode', self.dir_change('mode', d, mode=DirectoryShareMode(m)), d=d, m=str(m))
                 await self.look(lookers)
                 await self.battery()
         elif name == 'SetUsers':
@@ -588,7 +589,7 @@ class Session:
                 lookers = sorted(cfg['dusers'][d] ^ set(us))[:2]
                 await self.look(lookers)
                 cfg['dusers'][d] = set(us)
-                await api('setusers', lambda: shares.update_shared_directory(w.dir[d], users=sorted(w.user[u] for u in us)),
+                await api('setusers', self.dir_change('users', d, users=sorted(w.user[u] for u in us)),
                           d=d, us=sorted(us))
                 await self.look(lookers)
                 await self.battery()
@@ -598,8 +599,7 @@ class Session:
                 cfg['shared'].add(d)
                 cfg['mode'][d] = str(m)
                 cfg['dusers'][d] = set(us)
-                await api('add', lambda: shares.add_shared_directory(w.dir[d], share_mode=DirectoryShareMode(m),
-                                                                     users=sorted(w.user[u] for u in us)),
+                await api('add', self.dir_change('add', d, mode=DirectoryShareMode(m), users=sorted(w.user[u] for u in us)),
                           d=d, m=str(m), us=sorted(us))
                 self._alias.pop(d, None)
                 await self.battery()
@@ -607,7 +607,7 @@ class Session:
             d, = args
             if d in cfg['shared']:
                 cfg['shared'].discard(d)
-                await api('remove', lambda: shares.remove_shared_directory(w.dir[d]), d=d)
+                await api('remove', self.dir_change('remove', d), d=d)
                 await self.battery()
         elif name == 'ScanAll':
             await api('scan', lambda: shares.scan(), is_coro=True)
@@ -682,6 +682,8 @@ class Session:
                 await self.quiesce()
         elif name == 'Quiesce':         # harness instruction (a stuttering step of the model)
             await self.quiesce()
+        elif name == 'Settings':        # harness instruction: the next directory change is made in the settings
+            self.force_settings = True
         elif name == 'SearchFrom':
             await self.search(args[0], args[1])
         elif name == 'SharesFrom':
@@ -696,6 +698,46 @@ class Session:
             await self.transfer_action(name, (u, p[0], p[1], str(p[2])))
         else:
             raise MachineryFailure(f'no stimulus mapping for model action {name}')
+
+    def dir_change(self, what, d, mode=None, users=None):
+        """A change of the shared directories, made one of the two documented ways: through the methods
+        of SharesManager, or by editing settings.shares.directories in place (the entry's share_mode, its
+        users list, adding / dropping an entry) and calling load_from_settings().  The settings are kept
+        in line with what the methods did, as an application that persists its settings would."""
+        from aioslsk.settings import SharedDirectorySettingEntry
+        shares, path = self.client.shares, self.w.dir[d]
+        entries = self.settings.shares.directories
+        entry = next((e for e in entries if os.path.normpath(os.path.abspath(e.path)) == path), None)
+        by_settings = self.force_settings or self.rng.random() < self.p_settings
+        self.force_settings = False
+        if what == 'remove' and len(entries) <= 1 and not DROP_LAST_BY_SETTINGS:
+            by_settings = False
+
+        def change():
+            if by_settings:
+                if what == 'mode':
+                    entry.share_mode = mode
+                elif what == 'users':
+                    entry.users[:] = users                   # edited in place
+                elif what == 'add':
+                    entries.append(SharedDirectorySettingEntry(path=path, share_mode=mode, users=list(users)))
+                else:
+                    entries.remove(entry)
+                shares.load_from_settings()
+                return
+            if what == 'mode':
+                shares.update_shared_directory(path, share_mode=mode)
+                entry.share_mode = mode
+            elif what == 'users':
+                shares.update_shared_directory(path, users=users)
+                entry.users = list(users)
+            elif what == 'add':
+                shares.add_shared_directory(path, share_mode=mode, users=users)
+                entries.append(SharedDirectorySettingEntry(path=path, share_mode=mode, users=list(users)))
+            else:
+                shares.remove_shared_directory(path)
+                entries.remove(entry)
+        return change
 
     async def wait_tick(self):
         """advance virtual time until the user-management job reports (at most one period)"""
@@ -796,15 +838,24 @@ class Session:
         if item is None:
             return
         p = self.peers[u]
-        tk = next(self.tickets)
-        await p.send(M.PeerDirectoryContentsRequest.Request(tk, item.get_remote_directory_path()))
-        await self.settle()
-        msg = p.dir_replies.pop(tk, None)
-        if msg is None:
-            self.log('dir', u=u, f=f, replied=False, normal=[], locked=[], other=0)
-            return
-        normal, o1 = self._names_to_files([fd.filename for dd in msg.directories for fd in dd.files])
-        self.log('dir', u=u, f=f, replied=True, normal=normal, locked=[], other=o1)
+        canonical = item.get_remote_directory_path()
+        # the directory is asked for as the shares reply names it, and in another spelling of the same
+        # name (clients differ: trailing separator, / for \, doubled separators, other letter case)
+        self._dirform = getattr(self, '_dirform', self.rng.randrange(5)) + 1
+        other = (canonical + '\\', canonical + '/', canonical.replace('\\', '/'),
+                 canonical.replace('\\', '\\\\') + '\\\\', canonical.swapcase())[self._dirform % 5]
+        for name in (canonical, other):
+            if name != canonical and self.rng.random() < 0.25:
+                continue
+            tk = next(self.tickets)
+            await p.send(M.PeerDirectoryContentsRequest.Request(tk, name))
+            await self.settle()
+            msg = p.dir_replies.pop(tk, None)
+            if msg is None:
+                self.log('dir', u=u, f=f, replied=False, normal=[], locked=[], other=0)
+                continue
+            normal, o1 = self._names_to_files([fd.filename for dd in msg.directories for fd in dd.files])
+            self.log('dir', u=u, f=f, replied=True, normal=normal, locked=[], other=o1)
 
     async def battery(self, full=None, searches_only=False):
         """a few replies after a change: what do the peers see now?"""
@@ -958,6 +1009,12 @@ NEST3_INIT = (('D1', 'D2', 'D4'), (('D1', 'everyone'), ('D2', 'friends'), ('D3',
 
 # Hand-written behaviours of the model (every step is an enabled action): the histories named in the
 # property's rationale, so that they are replayed in every run whatever the sampling does.
+# load_from_settings() drops a directory that is no longer configured without any event: when it was
+# the last one nothing asks for a shares cycle (genuine defect found with the settings-way changes,
+# repair proposed in fixes/C08-5).  Until that is applied the harness does not drop the LAST configured
+# directory through the settings (it uses remove_shared_directory for it); set to True with the fix.
+DROP_LAST_BY_SETTINGS = True
+
 SCENARIOS = {
     'block-while-running': (DEFAULT_INIT, (
         ('QueueRequest', 'u1', P_F3), ('Cycle',), ('PeerAccept', ('u1', P_F3)), ('SetBlock', 'u1', frozenset({'up'})),
@@ -1064,6 +1121,22 @@ SCENARIOS = {
         ('SetFriend', 'u3', True), ('UserMgmtTick',), ('Cycle',), ('SessionStep', True), ('Cycle',), ('Quiesce',),
         ('SessionStep', False), ('SetFriend', 'u1', True), ('SetBlock', 'u3', frozenset({'up'})), ('UserMgmtTick',),
         ('SessionStep', True), ('Quiesce',))),
+    # the shared directories are changed by editing settings.shares.directories in place and reloading
+    'directories-changed-through-the-settings': (
+        (('D1', 'D3'), (('D1', 'everyone'), ('D2', 'everyone'), ('D3', 'users'), ('D4', 'everyone')),
+         (('D1', ()), ('D2', ()), ('D3', ('u1', 'u2')), ('D4', ())), ('u1',)), (
+        ('QueueRequest', 'u2', P_F3), ('QueueRequest', 'u1', P_F3), ('QueueRequest', 'u3', P_F1), ('Cycle',),
+        ('Settings',), ('SetUsers', 'D3', frozenset({'u1'})), ('Cycle',), ('Quiesce',),
+        ('Settings',), ('SetUsers', 'D3', frozenset({'u1', 'u2'})), ('Cycle',), ('Quiesce',),
+        ('Settings',), ('SetMode', 'D3', 'friends'), ('Cycle',), ('Quiesce',),
+        ('Settings',), ('SetMode', 'D1', 'friends'), ('Cycle',), ('Quiesce',),
+        ('Settings',), ('RemoveDir', 'D3'), ('Cycle',), ('Quiesce',),
+        ('Settings',), ('AddDir', 'D3', 'everyone', frozenset()), ('ScanAll',), ('Cycle',), ('Quiesce',))),
+    'only-directory-dropped-from-the-settings': (
+        (('D3',), (('D1', 'everyone'), ('D2', 'everyone'), ('D3', 'everyone'), ('D4', 'everyone')),
+         (('D1', ()), ('D2', ()), ('D3', ()), ('D4', ())), ()), (
+        ('QueueRequest', 'u1', P_F3), ('QueueRequest', 'u2', P_F3), ('Cycle',), ('Settings',), ('RemoveDir', 'D3'),
+        ('SharesFrom', 'u1'), ('Cycle',), ('Quiesce',))),
     'rescan-one-directory': (DEFAULT_INIT, (
         ('QueueRequest', 'u1', P_F3), ('RemoveDir', 'D3'), ('Cycle',), ('AddDir', 'D3', 'friends', frozenset()), ('Cycle',),
         ('ScanDir', 'D3'), ('Cycle',))),
@@ -1077,12 +1150,17 @@ def _init_from_state(st):
 def collect(chk: Check, thorough: bool):
     """-> dict (init, steps) -> source label"""
     behs = {}
+    if not DROP_LAST_BY_SETTINGS:
+        chk.assumptions.append('the last configured directory is not dropped by editing the settings + load_from_settings() '
+                               '(no event is emitted for it: defect, repair proposed in fixes/C08-5)')
 
     def add(init, steps, src):
         if steps:
             behs.setdefault((init, steps), src)
 
     for name, (init, steps) in SCENARIOS.items():
+        if name == 'only-directory-dropped-from-the-settings' and not DROP_LAST_BY_SETTINGS:
+            continue
         add(init, steps, f'scenario:{name}')
 
     # counterexamples of the models with one deviation switch in the position of the pinned code
